@@ -77,17 +77,27 @@ def _tab_to_cfg(tab):
     return t
 
 
-def _built_cases(ctx, n, glyph_counts, first_id, again, fresh, label):
+def _built_cases(ctx, n, glyph_counts, first_id, again, fresh, label, focus="random"):
+    """Configurations from FontCycleGen: n random ones (-simulate), or, for the exhaustive focus modes
+    ("layout", "onefactor"), every configuration of the focus (n is ignored)."""
     cfg = open(os.path.join(vlib.SPEC_DIR, "FontCycleGen.cfg")).read()
     cfg = re.sub(r"GlyphCounts = \{[^}]*\}", "GlyphCounts = {%s}" % ", ".join(str(g) for g in glyph_counts), cfg)
-    res = ctx.tlc("FontCycleGen", cfg="FCGen.cfg", files={"FCGen.cfg": cfg}, workers=1, simulate=n, depth=40,
-                  timeout=600, label=label)
+    cfg = cfg.replace('Focus = "random"', 'Focus = "%s"' % focus)
+    if focus == "random":
+        res = ctx.tlc("FontCycleGen", cfg="FCGen.cfg", files={"FCGen.cfg": cfg}, workers=1, simulate=n, depth=40,
+                      timeout=600, label=label)
+    else:
+        res = ctx.tlc("FontCycleGen", cfg="FCGen.cfg", files={"FCGen.cfg": cfg}, workers=2, timeout=600, label=label)
+        n = 20
     if res.violated:
         raise vlib.Infra("FontCycleGen violated %s: the configuration generator is wrong" % res.violated)
     if len(res.cases) < n:
         raise vlib.Infra("FontCycleGen produced %d of %d configurations" % (len(res.cases), n))
+    cases = res.cases
+    if focus != "random":       # exhaustive runs print in scheduling order: fix the order (ids seed the contents)
+        cases = sorted(cases, key=lambda c: json.dumps(c, sort_keys=True))
     out = []
-    for i, c in enumerate(res.cases):
+    for i, c in enumerate(cases):
         dom = c.pop("dom")
         out.append({"id": first_id + i, "src": "built", "label": "in Dom" if dom else "outside Dom", "cfg": c,
                     "again": again, "fresh": fresh})
@@ -320,6 +330,11 @@ def run(ctx):
                          "FontCycleGen configurations (simulate)")
     large = _built_cases(ctx, ctx.pick(4, 14), ctx.pick([2000], [2000, 65535]), 100001, 1, 1,
                          "FontCycleGen configurations, large glyph counts (simulate)")
+    # every run: all layout-table kinds with rich script lists (several scripts, 0..5 explicit language systems,
+    # features sharing a tag, lookups shared by features), written 1+4 times here and 2 times in fresh processes;
+    # and every scalar field taken through its domain including the extremes, one at a time
+    layout = _built_cases(ctx, 0, [30], 110001, 4, 2, "FontCycleGen focus layout (exhaustive)", focus="layout")
+    onef = _built_cases(ctx, 0, [30], 120001, 2, 1, "FontCycleGen focus onefactor (exhaustive)", focus="onefactor")
     ctx.sample({"tlc_configuration": built[0]})
     # R: abstract table sets
     nt = ctx.pick(300, 4000)
@@ -341,7 +356,7 @@ def run(ctx):
 
     # the harness runs on small chunks in parallel; the traces of a group are validated together
     # (at most 1500 cases per TLC run)
-    groups = [("large", large, 1), ("built", built, 30), ("tables", tabs, 75), ("bytes", corpus, 100)]
+    groups = [("large", large, 1), ("layout", layout, 3), ("onefactor", onef, 20), ("built", built, 30), ("tables", tabs, 75), ("bytes", corpus, 100)]
     for name, cases, size in groups:
         done = _run_chunks(ctx, binp, cases, d, name, size)
         if name == "built":
@@ -369,7 +384,7 @@ def run(ctx):
                      "real code is not a fixed point on %d" % (agree, len(tabs), sum(1 for c in tabs if c["id"] in badids)))
 
     distinct = set()
-    for c in built + large:
+    for c in built + large + layout + onef:
         distinct.add(json.dumps(c["cfg"], sort_keys=True))
     for c in tabs:
         distinct.add(json.dumps(c["tab"], sort_keys=True))
@@ -378,7 +393,7 @@ def run(ctx):
     ctx.cov["distinct_nontrivial"] = len(distinct)
     ctx.cov["rule"] = ("distinct TLC-drawn font configurations + distinct TLC-drawn table sets + distinct byte strings accepted by "
                        "sfnt.Read; each is one five-step cycle with repeated writes; evaluations = recorded events validated by TLC")
-    ctx.cov["cases"] = {"built": len(built) + len(large), "tables": len(tabs), "bytes": len(corpus), "marked_bad_by_TLC": len(pending)}
+    ctx.cov["cases"] = {"built": len(built) + len(large) + len(layout) + len(onef), "tables": len(tabs), "bytes": len(corpus), "marked_bad_by_TLC": len(pending)}
     if pending:
         _report(ctx, pending)
 
